@@ -10,6 +10,7 @@ import Voi.Drv.ECVRF
 import Voi.Drv.Lattice
 import Voi.Drv.Batch
 import Voi.Drv.T0
+import Voi.Drv.FL
 import Voi.Drv.Sr25519
 import Voi.Drv.Field
 import Voi.Drv.Panic
@@ -24,6 +25,7 @@ structure DrvState where
   merlin : MerlinDrv := {}
   batch : BatchDrv := {}
   ir : List IRProg := []
+  fl : List FLProg := []
   sr : SrDrv := {}
 
 def dispatch (st : DrvState) (ws : List String) : DrvState × String :=
@@ -52,6 +54,7 @@ def dispatch (st : DrvState) (ws : List String) : DrvState × String :=
   | "P1" :: op :: a => (st, handleP1 op a)
   | "F2" :: op :: a => (st, handleF2 op a)
   | "T0" :: op :: a => (st, handleT0 st.ir op a)
+  | "T2" :: op :: a => (st, handleT2 st.fl op a)
   | "B1" :: op :: a => let r := handleBatch st.batch "B1" op a; ({ st with batch := r.1 }, r.2)
   | "C1" :: op :: a => let r := handleBatch st.batch "C1" op a; ({ st with batch := r.1 }, r.2)
   | "C2" :: op :: a => let r := handleBatch st.batch "C2" op a; ({ st with batch := r.1 }, r.2)
